@@ -4,7 +4,6 @@ A registry for units that can be added to and modified.
 
 """
 
-import copy
 import json
 from functools import lru_cache
 from hashlib import md5
@@ -266,7 +265,11 @@ class UnitRegistry:
         return equiv
 
     def __deepcopy__(self, memodict=None):
-        lut = copy.deepcopy(self.lut)
+        # The table maps strings to tuples of immutable objects, so a new
+        # dict is a deep copy. Deep-copying the sympy dimension expressions
+        # would create objects that are equal but not identical to unyt's
+        # dimension singletons, which are compared by identity.
+        lut = dict(self.lut)
         return type(self)(lut=lut)
 
 
@@ -339,12 +342,32 @@ def _lookup_unit_symbol(symbol_str, unit_symbol_lut):
     )
 
 
+def _use_dimension_singletons(dims):
+    """Return *dims* expressed in terms of unyt's base dimension objects
+
+    Dimension expressions that were unpickled are equal, but not identical, to
+    the objects defined in :mod:`unyt.dimensions`, and much of unyt compares
+    base dimensions by identity (the angle, temperature and logarithmic
+    guards in particular).
+    """
+    replacements = {}
+    for symbol in getattr(dims, "free_symbols", ()):
+        for base_dim in unyt_dims.base_dimensions:
+            if base_dim == symbol and base_dim is not symbol:
+                replacements[symbol] = base_dim
+    if replacements:
+        dims = dims.xreplace(replacements)
+    return dims
+
+
 def _correct_old_unit_registry(data, sympify=False):
     lut = {}
     for k, v in data.items():
         unsan_v = list(v)
         if sympify:
             unsan_v[1] = cached_sympify(v[1])
+        else:
+            unsan_v[1] = _use_dimension_singletons(unsan_v[1])
         if len(unsan_v) == 4:
             # old unit registry so we need to add SI-prefixability to the registry
             # entry, correct the base_value to be in MKS units, and swap dimensions to
